@@ -13,7 +13,9 @@ Local Open Scope list_scope.
 Inductive num := Num (neg : bool) (lit : str).              (* [-]<literal text> *)
 Inductive arg :=
 | AMin (n : num) | AMax (n : num)
-| AMsg (lit : str) (value : str).                           (* literal as written in the source, and its value *)
+| AMsg (lit : str) (value : str)                            (* literal as written in the source, and its value *)
+| AEqual (n : num)                                          (* length(equal = n): legal in validator, not read by the scanners *)
+| ACode (lit : str).                                        (* code = "...": legal in validator, never a constraint *)
 Inductive item :=
 | ILength (args : list arg)
 | IRange (args : list arg)
@@ -64,6 +66,8 @@ Definition arg_toks (a : arg) : list tt :=
   | AMin n => TIdent (L "min") :: TPunct "=" false :: num_toks n
   | AMax n => TIdent (L "max") :: TPunct "=" false :: num_toks n
   | AMsg lit _ => [TIdent (L "message"); TPunct "=" false; TLit lit]
+  | AEqual n => TIdent (L "equal") :: TPunct "=" false :: num_toks n
+  | ACode lit => [TIdent (L "code"); TPunct "=" false; TLit lit]
   end.
 Definition args_group (args : list arg) : tt := TGroup DParen (sep_toks comma (map arg_toks args)).
 Definition kv_toks (p : str * str) : list tt := [TIdent (fst p); TPunct "=" false; TLit (snd p)].
